@@ -2,7 +2,10 @@ package main
 
 import (
 	"fmt"
+	"go/constant"
 	"go/token"
+	"go/types"
+	"sort"
 
 	"golang.org/x/tools/go/ssa"
 )
@@ -263,5 +266,119 @@ func ruleJ8(c *Ctx, rule string) {
 	})
 	if n == 0 {
 		r.Note("%s: MarshalJSON does not pass o.Content to an Encode call", rule)
+	}
+}
+
+// ---- J9 / Y7: the encoders' kind switches name every kind -----------------------------
+
+// ruleKindSwitch: fnName compares the node's Kind with every constant of type
+// Kind declared in the package (scalar, sequence, mapping, alias). A kind that
+// falls into the default arm is encoded as nothing / null.
+func ruleKindSwitch(c *Ctx, rule, fnName string) {
+	r := c.R
+	fn := c.libFunc(fnName)
+	if fn == nil {
+		r.Fatal("anchor missing: %s", fnName)
+		return
+	}
+	// the Kind constants of the package
+	kinds := map[int64]string{}
+	for _, name := range c.P.lib().Types.Scope().Names() {
+		k, ok := c.P.lib().Types.Scope().Lookup(name).(*types.Const)
+		if !ok || namedTypeName(k.Type()) != "Kind" {
+			continue
+		}
+		if v, exact := constant.Int64Val(k.Val()); exact {
+			kinds[v] = name
+		}
+	}
+	if len(kinds) < 4 {
+		r.Fatal("anchor moved: fewer than 4 constants of type Kind in the package (%d)", len(kinds))
+		return
+	}
+	compared := map[int64]bool{}
+	eachInstr(fn, func(ins ssa.Instruction) {
+		bo, ok := ins.(*ssa.BinOp)
+		if !ok || (bo.Op != token.EQL && bo.Op != token.NEQ) {
+			return
+		}
+		for _, pr := range [][2]ssa.Value{{bo.X, bo.Y}, {bo.Y, bo.X}} {
+			u, ok := pr[0].(*ssa.UnOp)
+			if !ok {
+				continue
+			}
+			fa, ok := u.X.(*ssa.FieldAddr)
+			if !ok || fieldName(fa) != "Kind" || fa.X != ssa.Value(fn.Params[0]) {
+				continue
+			}
+			if k, ok := constInt64(pr[1]); ok {
+				compared[k] = true
+			}
+		}
+	})
+	var vals []int64
+	for v := range kinds {
+		vals = append(vals, v)
+	}
+	sort.Slice(vals, func(i, j int) bool { return vals[i] < vals[j] })
+	for _, v := range vals {
+		key := fmt.Sprintf("%s/handles(%s)", fnName, kinds[v])
+		if compared[v] {
+			r.Discharge(rule, key, c.P.pos(fn.Pos()), "the receiver's Kind is compared with "+kinds[v])
+		} else {
+			r.Finding(rule, key, c.P.pos(fn.Pos()), fmt.Sprintf("%s has no arm for %s: a node of that kind falls into the default arm and is encoded as null / an empty node", fnName, kinds[v]))
+		}
+	}
+}
+
+// ---- J10 (C06): integers never take the float route -----------------------------------
+
+// ruleJ10: in GetValueRep, the code reached for a node whose tag is !!int does
+// not call strconv.ParseFloat: an integer that does not fit 64 bits must be an
+// error, not the nearest float64.
+func ruleJ10(c *Ctx, rule string) {
+	r := c.R
+	r.Rule(rule, "an integer scalar is never converted through float64 on its way to JSON", 1)
+	fn := c.libFunc("CandidateNode.GetValueRep")
+	if fn == nil {
+		r.Fatal("anchor missing: (*CandidateNode).GetValueRep")
+		return
+	}
+	var region *ssa.BasicBlock
+	for _, b := range fn.Blocks {
+		ifi, ok := b.Instrs[len(b.Instrs)-1].(*ssa.If)
+		if !ok {
+			continue
+		}
+		bo, ok := ifi.Cond.(*ssa.BinOp)
+		if !ok || bo.Op != token.EQL {
+			continue
+		}
+		for _, v := range []ssa.Value{bo.X, bo.Y} {
+			if k, ok := v.(*ssa.Const); ok && k.Value != nil && k.Value.Kind() == constant.String && constant.StringVal(k.Value) == "!!int" {
+				region = b.Succs[0]
+			}
+		}
+	}
+	key := "GetValueRep/!!int"
+	if region == nil {
+		r.Undecided(rule, key, c.P.pos(fn.Pos()), "GetValueRep has no `== \"!!int\"` test: shape not recognised")
+		return
+	}
+	bad := ""
+	for _, b := range fn.Blocks {
+		if !region.Dominates(b) {
+			continue
+		}
+		for _, ins := range b.Instrs {
+			if call, ok := ins.(*ssa.Call); ok && calleeName(&call.Call) == "strconv.ParseFloat" {
+				bad = c.P.pos(call.Pos())
+			}
+		}
+	}
+	if bad == "" {
+		r.Discharge(rule, key, c.P.pos(region.Instrs[0].Pos()), "the !!int arm parses integers only; out-of-range is an error")
+	} else {
+		r.Finding(rule, key, bad, "the !!int arm falls back to strconv.ParseFloat: an integer beyond 64 bits is emitted as the nearest float64 (12345678901234567890 becomes 12345678901234567000) instead of an error")
 	}
 }
